@@ -1,22 +1,20 @@
-"""Which harness units decide which property.  Read by ./check.
+"""Which harness units decide which property.  Read by ./check and gen_manifest.py.
 
+One fragment per property: units.d/<ID>.json =
+  {"units": [unit...], "level": "exploration"|"fault_enumeration", "meta": {"technique","text","note"}}
 unit keys: name, pkg (package dir in the repository), test (Go test function),
-race (default True), porcupine (needs the porcupine module: -modfile build),
+race (default true), porcupine (needs the porcupine module: -modfile build),
 tiers (default both), timeout_s {quick, thorough}, env {...}.
 """
+import glob, json, os
 
-CL = "server/commitlog"
-SRV = "server"
-
-UNITS = {
-    "C01": [
-        dict(name="programs", pkg=CL, test="TestVerifC01Programs", timeout_s=dict(quick=600, thorough=3000)),
-        dict(name="enum", pkg=CL, test="TestVerifC01Enum", timeout_s=dict(quick=600, thorough=3000)),
-        dict(name="concurrent", pkg=CL, test="TestVerifC01Concurrent", timeout_s=dict(quick=600, thorough=3000)),
-    ],
-}
-
-# evidence "level" per property (default: exploration)
-LEVELS = {
-    "C05": "fault_enumeration",
-}
+_D = os.path.join(os.path.dirname(os.path.abspath(__file__)), "units.d")
+UNITS, LEVELS, META = {}, {}, {}
+for _p in sorted(glob.glob(os.path.join(_D, "*.json"))):
+    _j = json.load(open(_p))
+    _id = os.path.basename(_p)[:-5]
+    UNITS[_id] = _j["units"]
+    if _j.get("level"):
+        LEVELS[_id] = _j["level"]
+    if _j.get("meta"):
+        META[_id] = _j["meta"]
